@@ -223,7 +223,8 @@ func c11r3(c *Check) {
 			if _, f, ok := fieldLoad(cnd); ok && f == dropRaw {
 				return []string{"dropraw" + suffix}
 			}
-			return nil
+			// any other condition: the verdict would depend on something besides the filter stages
+			return []string{"other@" + c.P.InstrPos(ifi)}
 		},
 	}
 	paths, trunc := EnumPaths(addMaybe, nil, cfg)
@@ -233,6 +234,10 @@ func c11r3(c *Check) {
 		pa := &paths[i]
 		if pa.End != "return" || len(pa.Ret) != 1 || pa.Ret[0] == nil {
 			probs = append(probs, "result not determined on path (drop-raw decision depends on something other than the DropRaw flag and the match stages): "+pa.String())
+			continue
+		}
+		if oe, has := hasPrefixEvent(pa, "other@"); has {
+			probs = append(probs, "whether the aggregation takes (and with drop-raw: withholds) a metric depends on a condition that is not one of its filter stages ("+strings.TrimPrefix(oe, "other@")+"): the decision must depend on the metric name only, not on value, timestamp or time: "+pa.String())
 			continue
 		}
 		res := pa.Ret[0].String() == "true"
